@@ -143,9 +143,9 @@ class P:
             if "." in v or (m.group(2) or "").startswith("f"):
                 fm = re.match(r"([\d_]+)(?:\.([\d_]*))?(f32|f64)?$", v)
                 frac = (fm.group(2) or "").replace("_", "").strip("0") if fm else "x"
-                if not fm or frac != "" or fm.group(3) == "f32":
-                    raise Fail(f"float literal {v} outside the translated subset (only f64 literals with an integral value)")
-                return ("int", int(fm.group(1).replace("_", "")), "f64")
+                if not fm or frac != "":
+                    raise Fail(f"float literal {v} outside the translated subset (only float literals with an integral value)")
+                return ("int", int(fm.group(1).replace("_", "")), fm.group(3) or "float")
             return ("int", int(m.group(1).replace("_", "")), m.group(2))
         if k == "str":
             self.eat()
@@ -219,9 +219,22 @@ class P:
         raise Fail(f"unexpected token {v!r}")
 
     def pattern(self):
+        k = self.kind()
         v = self.eat()
+        if v == "(":
+            ps = []
+            while self.peek() != ")":
+                ps.append(self.pattern())
+                if self.peek() == ",":
+                    self.eat()
+            self.eat(")")
+            return ("ptuple", ps)
+        if k == "int":
+            return ("pint", int(re.match(r"[\d_]+", v).group(0).replace("_", "")))
         if v in ("true", "false", "_", "None"):
             return ("plit", v)
+        if k == "id" and v != "Some" and self.peek() not in ("::", "("):
+            return ("pvar", v)
         if v == "Some":
             self.eat("(")
             x = self.eat()
@@ -427,6 +440,7 @@ class Gen:
     def __init__(self, struct, fields, consts, ignore_calls, field_map=None):
         self.struct, self.fields, self.consts, self.ignore = struct, dict(fields), consts, ignore_calls
         self.inline, self.inline_expr, self.default_of, self.enums, self.free_fns = {}, {}, {}, {}, {}
+        self.fvar = "o"
         self.field_map = field_map or {}
 
     def ftype(self, f):
@@ -442,7 +456,15 @@ class Gen:
     def width(self, t):
         return INT_T.get(t)
 
+    FLOATS = ("f32", "f64", "float")
+
+    def fl(self, name):
+        """the operation `name` of the arithmetic floats are translated into (`Estimator.Ops` as `o`, or `BarGeo.Arith` as `A`)"""
+        return f"{self.fvar}.{name}"
+
     def join_ty(self, a, b, what):
+        if a in self.FLOATS and b in self.FLOATS:
+            return a if a != "float" else b
         if a is None:
             return b
         if b is None or a == b:
@@ -455,8 +477,8 @@ class Gen:
         """returns (guards, term, type)"""
         k = e[0]
         if k == "int":
-            if e[2] == "f64":
-                return [], ("o.zero" if e[1] == 0 else "o.one" if e[1] == 1 else f"(o.ofNat {e[1]})"), "f64"
+            if e[2] in self.FLOATS:
+                return [], (self.fl("zero") if e[1] == 0 else self.fl("one") if e[1] == 1 else f"({self.fl('ofNat')} {e[1]})"), e[2]
             return [], str(e[1]), e[2]
         if k == "var":
             n = e[1]
@@ -486,8 +508,10 @@ class Gen:
         if k == "cast":
             g, t, ty = self.expr(e[1], env)
             to = e[2]
-            if to == "f64" and self.width(ty) is not None:
-                return g, f"(o.ofNat {t})", "f64"        # integer to f64 (rounding is the instance's business)
+            if to in ("f64", "f32") and self.width(ty) is not None:
+                return g, f"({self.fl('ofNat')} {t})", to        # integer to float (rounding is the instance's business)
+            if ty in self.FLOATS and to in INT_T:
+                return g, f"({self.fl('trunc')} {t})", to        # float to integer: toward zero, saturating
             if to not in INT_T:
                 raise Fail(f"cast to {to} outside the translated subset")
             w0, w1 = self.width(ty), INT_T[to]
@@ -514,14 +538,20 @@ class Gen:
                 return g, f"({a} {'∧' if op == '&&' else '∨'} {b})", "bool"
             if op in ("==", "!=", "<", "<=", ">", ">="):
                 lop = {"==": "=", "!=": "≠", "<": "<", "<=": "≤", ">": ">", ">=": "≥"}[op]
-                self.join_ty(ta, tb, op)
+                jt = self.join_ty(ta, tb, op)
+                if jt in self.FLOATS:
+                    if op == "<":
+                        return g, f"({self.fl('lt')} {a} {b} = true)", "bool"
+                    if op == ">":
+                        return g, f"({self.fl('lt')} {b} {a} = true)", "bool"
+                    raise Fail(f"comparison {op} on floats outside the translated subset")
                 return g, f"({a} {lop} {b})", "bool"
             ty = self.join_ty(ta, tb, op)
-            if ty == "f64":
+            if ty in self.FLOATS:
                 fop = {"+": "add", "-": "sub", "*": "mul", "/": "div"}.get(op)
                 if fop is None:
-                    raise Fail(f"operator {op} on f64")
-                return g, f"(o.{fop} {a} {b})", "f64"      # floating point never panics
+                    raise Fail(f"operator {op} on floats")
+                return g, f"({self.fl(fop)} {a} {b})", ty      # floating point never panics
             w = self.width(ty)
             if op == "+":
                 if w is not None:
@@ -558,7 +588,12 @@ class Gen:
                 g, t, ty = self.expr(args[0], env)
                 if self.width(ty) is None:
                     raise Fail("f64::from on a non-integer")
-                return g, f"(o.ofNat {t})", "f64"
+                return g, f"({self.fl('ofNat')} {t})", "f64"
+            if name in ("usize::from", "u64::from") and len(args) == 1:
+                g, t, ty = self.expr(args[0], env)
+                if ty == "bool":
+                    return g, f"(if {t} then 1 else 0)", name.split(":")[0]
+                raise Fail(f"{name} on {ty}")
             if name in self.free_fns and len(args) == len(self.free_fns[name][1]):
                 gs, ts = [], []
                 for a in args:
@@ -582,6 +617,13 @@ class Gen:
                 if params or len(st) != 1 or st[0][0] != "tail":
                     raise Fail(f"cannot inline self.{m}() as an expression")
                 return self.expr(st[0][1], env)
+            if m == "len" and not args and recv[0] == "field":
+                try:
+                    lk = self.lhs_key(recv) + ".len"
+                except Fail:
+                    lk = None
+                if lk in env:
+                    return [], env[lk][0], env[lk][1]
             if m == "len" and not args:
                 g, t, ty = self.expr(recv, env)
                 if not (isinstance(ty, tuple) and ty[0] == "vec"):
@@ -634,6 +676,18 @@ class Gen:
                 return ga + gb + [f"{b} ≤ {a}"], f"({a} - {b})", ta
             if m == "into" and not args:
                 return self.expr(recv, env)
+            if m == "fract" and not args:
+                g, t, ty = self.expr(recv, env)
+                if ty not in self.FLOATS:
+                    raise Fail(f"fract on {ty}")
+                return g, f"({self.fl('fract')} {t})", ty
+            if m == "clamp" and len(args) == 2:
+                g, t, ty = self.expr(recv, env)
+                g1, lo, t1 = self.expr(args[0], env)
+                g2, hi, t2 = self.expr(args[1], env)
+                if ty not in self.FLOATS:
+                    raise Fail(f"clamp on {ty}")
+                return g + g1 + g2, f"(if {self.fl('lt')} {t} {lo} = true then {lo} else if {self.fl('lt')} {hi} {t} = true then {hi} else {t})", ty
             raise Fail(f"method {m} outside the translated subset")
         if k == "macro" and e[1] == "write" and len(e[2]) == 2 and e[2][1][0] == "str":
             return [], self.fmt_pieces(e[2][1][1][1:-1], env), "fmt"
@@ -647,6 +701,37 @@ class Gen:
                 # a guard inside an arm only applies when that arm is taken
                 gs = gs + [f"({s} → {x})" for x in g1] + [f"(¬ {s} → {x})" for x in g2]
                 return gs, f"(if {s} then {t1} else {t2})", ty1
+            if all(p[0] == "ptuple" for p in pats) and e[1][0] == "tuple" and all(len(p[1]) == len(e[1][1]) for p in pats):
+                scr = [self.expr(x, env) for x in e[1][1]]
+                gs = [g for (g, _, _) in scr for g in g]
+                out, rty = [], None
+                for pat, body in arms:
+                    env_a, lp = dict(env), []
+                    for sub, (_, st, sty) in zip(pat[1], scr):
+                        if sub == ("plit", "_"):
+                            lp.append("_")
+                        elif sub[0] == "pint":
+                            lp.append(str(sub[1]))
+                        elif sub == ("plit", "None"):
+                            lp.append("none")
+                        elif sub[0] == "psome":
+                            inner = sub[1]
+                            if re.fullmatch(r"\d+", inner):
+                                lp.append(f"(some {inner})")
+                            else:
+                                lp.append(f"(some {inner})")
+                                env_a[inner] = (inner, sty[1] if isinstance(sty, tuple) else None)
+                        elif sub[0] == "pvar":
+                            lp.append(sub[1])
+                            env_a[sub[1]] = (sub[1], sty)
+                        else:
+                            raise Fail(f"tuple sub-pattern {sub} outside the translated subset")
+                    gb, tb2, tyb = self.expr(body, env_a)
+                    if gb:
+                        raise Fail("panicking expression inside a tuple-match arm")
+                    rty = self.join_ty(rty, tyb, "match") if rty else tyb
+                    out.append(f"| {', '.join(lp)} => {tb2}")
+                return gs, f"(match {', '.join(t for (_, t, _) in scr)} with {' '.join(out)})", rty
             raise Fail("match outside the translated subset")
         if k == "ife":
             gs, s, ty = self.expr(e[1], env)
@@ -664,6 +749,8 @@ class Gen:
     def ret(self, val, env, ind):
         if self.out_fields is None:
             return f"{ind}{val}"
+        if self.out_fields == "opt":
+            return f"{ind}some {val}"
         st = ", ".join(f"{f} := {env[k][0]}" for k, f in self.out_fields)
         return f"{ind}some ({val}, {{ {st} }})"
 
@@ -1166,7 +1253,44 @@ def main():
     out2 = os.path.join(os.path.dirname(out), "EstimatorFuns.lean")
     if not os.path.exists(out2) or open(out2).read() != text2:
         open(out2, "w").write(text2)
-    print("rs2lean: ok,", text.count("\ndef ") + text2.count("\ndef "), "definitions")
+    # ---- bar geometry (f32 code, generic in the arithmetic `BarGeo.Arith`): a third generated file
+    b = ["import IndicatifModel.Model.BarGeo\n"
+         "/-! GENERATED by tools/rs2lean.py from src/state.rs and src/style.rs — do not edit.\n"
+         "`ProgressState::fraction` and the arithmetic of `ProgressStyle::format_bar`, generic in `BarGeo.Arith α`: `f32` multiplication and\n"
+         "division are `A.mul` / `A.div`, `n as f32` is `A.ofNat`, `x as usize` is `A.trunc`, `<` / `>` are `A.lt`, `fract()` is `A.fract`;\n"
+         "`none` = the Rust code panics (division by a zero `char_width`). -/\n"
+         "set_option linter.unusedVariables false\nnamespace IndicatifModel.Generated\nopen IndicatifModel\n"]
+    params, ret, body = find_fn(stt, "ProgressState", "fraction")
+    if params or ret != "f32":
+        raise Fail(f"ProgressState::fraction has signature {params} -> {ret}")
+    g3 = Gen("ProgressState", [], {}, set())
+    g3.fvar, g3.out_fields = "A", None
+    env3 = {"self.pos.pos": ("pos", "u64"), "self.len": ("len", ("opt", "u64"))}
+    code = g3.block(P(lex(body)).stmts(), env3, "  ", lambda e2, i2: (_ for _ in ()).throw(Fail("fraction: control reaches the end")))
+    b.append("/-- `ProgressState::fraction(&self) -> f32` with `self.pos.pos` and `self.len` as arguments -/\n"
+             "def fraction {α : Type} (A : BarGeo.Arith α) (pos : Nat) (len : Option Nat) : α :=\n" + code + "\n")
+    params, ret, body = find_fn(sty, "ProgressStyle", "format_bar")
+    if [p for p, _ in params] != ["fract", "width", "alt_style"] or params[0][1] != "f32" or params[1][1] != "usize":
+        raise Fail(f"ProgressStyle::format_bar has parameters {params}")
+    cut = re.search(r"\n\s*let\s+rest\s*=", body)
+    tailm = re.search(r"BarDisplay\s*\{\s*chars\s*:\s*&self\.progress_chars\s*,\s*filled\s*:\s*entirely_filled\s*,\s*cur\s*,\s*rest\s*:", strip_comments(body))
+    restm = re.search(r"let\s+rest\s*=\s*RepeatedStringDisplay\s*\{\s*str\s*:\s*&self\.progress_chars\[self\.progress_chars\.len\(\)\s*-\s*1\]\s*,\s*num\s*:\s*bg\s*,?\s*\}", strip_comments(body))
+    if not (cut and tailm and restm):
+        raise Fail("ProgressStyle::format_bar: the BarDisplay { filled: entirely_filled, cur, rest: <bg cells> } tail was not recognised")
+    g4 = Gen("ProgressStyle", [], {}, set())
+    g4.fvar, g4.out_fields = "A", "opt"
+    env4 = {"fract": ("fract", "f32"), "width": ("width", "usize"), "self.char_width": ("cw", "usize"), "self.progress_chars.len": ("nchars", "usize")}
+    st4 = P(lex(body[:cut.start()])).stmts() + [("tail", ("tuple", [("var", "entirely_filled"), ("var", "cur"), ("var", "bg")]))]
+    code = g4.block(st4, env4, "  ", lambda e2, i2: (_ for _ in ()).throw(Fail("format_bar: control reaches the end")))
+    b.append("/-- the arithmetic of `ProgressStyle::format_bar(fract, width, _)`: (`filled`, `cur`, number of background cells) of the `BarDisplay`\n"
+             "it returns; `cw` is `self.char_width`, `nchars` is `self.progress_chars.len()` -/\n"
+             "def formatBar {α : Type} (A : BarGeo.Arith α) (fract : α) (width cw nchars : Nat) : Option (Nat × Option Nat × Nat) :=\n" + code + "\n")
+    b.append("end IndicatifModel.Generated\n")
+    text3 = "\n".join(b)
+    out3 = os.path.join(os.path.dirname(out), "BarGeoFuns.lean")
+    if not os.path.exists(out3) or open(out3).read() != text3:
+        open(out3, "w").write(text3)
+    print("rs2lean: ok,", text.count("\ndef ") + text2.count("\ndef ") + text3.count("\ndef "), "definitions")
 
 
 if __name__ == "__main__":
